@@ -24,12 +24,12 @@ macro_rules! stub_property {
 stub_property!(c01, C01, "C01");
 stub_property!(c02, C02, "C02");
 stub_property!(c03, C03, "C03");
-stub_property!(c04, C04, "C04");
-stub_property!(c05, C05, "C05");
+pub mod c04;
+pub mod c05;
 stub_property!(c06, C06, "C06");
 stub_property!(c07, C07, "C07");
 stub_property!(c08, C08, "C08");
-stub_property!(c09, C09, "C09");
+pub mod c09;
 pub mod c10;
 pub mod c11;
 stub_property!(c12, C12, "C12");
@@ -37,7 +37,7 @@ stub_property!(c13, C13, "C13");
 stub_property!(c14, C14, "C14");
 stub_property!(c15, C15, "C15");
 stub_property!(c16, C16, "C16");
-stub_property!(c17, C17, "C17");
+pub mod c17;
 stub_property!(c18, C18, "C18");
 stub_property!(c19, C19, "C19");
 pub mod c20;
